@@ -406,8 +406,39 @@ def _is_derived_driver(F, fb, depth=0):
         cb = F.callee_body(t, fb.crate)
         if cb is not None:
             continue  # crate-local transformation of the received item
-        return False
+        return _derived_driver_by_table(F, fb)
     return True
+
+
+DRIVER_RX = r"UnboundedReceiver(::<.*>)?::try_next$|Iterator::next$|Receiver(::<.*>)?::try_recv$"
+
+
+def _derived_driver_by_table(F, fb):
+    """Spelling-independent version: on the fn's deep path table every path that returns `Some(..)` learned that the
+    driver produced an item (its result was Some / Ok(Some)); so the fn yields Some at most once per item of the
+    finite resource."""
+    from . import deep as D
+    try:
+        paths = D.Deep(F, fb, inline=False, max_paths=2000).run()
+    except Unverifiable:
+        return False
+    some = 0
+    for p in paths:
+        if p.cut:
+            continue
+        if D.is_variant(p.ret, "std::option::Option", "None"):
+            continue
+        if not D.is_variant(p.ret, "std::option::Option", "Some"):
+            return False
+        some += 1
+        ok = False
+        for a, o in p.conds:
+            if a[0] == "discr" and o == "Some" and D.mentions(a[1], lambda x: x[0] == "call" and re.search(DRIVER_RX, x[1])):
+                # the *first* driver call of the path (not one inside a later loop over something else)
+                ok = True
+        if not ok:
+            return False
+    return some >= 1
 
 
 def cut_edges(F, body, R=None, note=None):
